@@ -171,8 +171,11 @@ def indexing(ku: str, fu: str, pu: str) -> bool:
     s = _snap(xm)
     sl = xm[0:2]
     el = xm[1]
+    # the same element reached with the index types numpy hands out (np.int64 from arange / argmax)
+    el2 = xm[np.int64(1)]
+    el3 = xm[np.argmax(xm.kcals)]
     return (_ok(sl, [ku + EM, fu + EM, pu + EM]) and sl.is_list_monthly() and len(sl.kcals) == 2 and not el.is_list_monthly() and el.kcals == 2.0
-            and _ok(el, [ku + PM, fu + PM, pu + PM]) and _same(xm, s))
+            and _ok(el, [ku + PM, fu + PM, pu + PM]) and _ok(el2, [ku + PM, fu + PM, pu + PM]) and el2.kcals == 2.0 and _ok(el3, [ku + PM, fu + PM, pu + PM]) and el3.kcals == 3.0 and _same(xm, s))
 
 
 def sums_and_extrema(ku: str, fu: str, pu: str) -> bool:
